@@ -258,7 +258,8 @@ def run_ftp_with_fault(script, target, exc, connect=False):
 def web_case(rng):
     loc = rng.choice([b'/next', b'http://h.test/next', b'http://[::bad', b'', b' ', b'\x00', b'http://h.test:99999/', b'//', b'http://',
                       b'ht!tp://x', b'/a\r\n b', b'http://h.test/%zz', b'\xff\xfe', b'http://\xe2\x98\x83.test/', b'mailto:x', b'?', b'#'])
-    cookie = rng.choice([b'a=b', b'=', b'a', b';;;', b'a=b; Domain=.test; Path=/; Expires=garbage', b'\x00=\x01', b'a=' + b'v' * 5000,
+    cookie = rng.choice([b'a=b', b'=', b'a', b';;;', b'new=1; Path=/fresh/path', b'new=1; Path=/a', b'new=1',
+                         b'a=b; Domain=.test; Path=/; Expires=garbage', b'\x00=\x01', b'a=' + b'v' * 5000,
                          b'a=b; Max-Age=-1', b'a=b; Max-Age=99999999999999999999', b'a=b; Expires=Wed, 99 Foo 99999 99:99:99 GMT',
                          b'a="b', b'a=b; Domain=', b'a=b; Version=x', b'\xff=\xfe', b'a=b, c=d; Path', b'$Version=1'])
     auth = rng.choice([b'Basic realm="x"', b'', b'Digest', b'Basic', b'\x00', b'Basic realm=' + b'x' * 3000])
@@ -279,7 +280,10 @@ def web_case(rng):
         if rng.random() < 0.4:
             connect_wire = mutate(rng, connect_wire)
     return {'entry': 'web', 'wire': head, 'with_password': rng.random() < 0.5, 'seg_seed': rng.randrange(1 << 30), 'via': via,
-            'connect_wire': connect_wire}
+            'connect_wire': connect_wire,
+            # state carried over from earlier responses: a jar that already holds many cookies of this domain (the policy
+            # limits cookies per domain) under one or several paths
+            'jar_preload': rng.choice([0, 0, 0, 49, 50, 51, 120]), 'jar_paths': rng.choice([['/'], ['/', '/a', '/b/c']])}
 
 
 def run_web(case, part):
@@ -311,6 +315,12 @@ def run_web(case, part):
             jar = CookieJar()
             jar.set_policy(DeFactoCookiePolicy(cookie_jar=jar))
             client = WebClient(http_client=Client(connection_pool=pool), cookie_jar=CookieJarWrapper(jar))
+            if case.get('jar_preload'):
+                import http.cookiejar
+                for k in range(case['jar_preload']):
+                    jar.set_cookie(http.cookiejar.Cookie(
+                        0, 'c%d' % k, 'v', None, False, 'h.test', False, False, case['jar_paths'][k % len(case['jar_paths'])], True,
+                        False, None, False, None, None, {}))
             request = Request('https://h.test/start' if case.get('via') == 'tunnel' else 'http://h.test/start')
             if case['with_password']:
                 request.username, request.password = 'u', 'p'
